@@ -502,13 +502,16 @@ PROPS = {
                      'the source graph was built through the API (wf, edge targets in range, no self-loops: lemmas L13)'],
     ),
     'C15': dict(
-        units=['U_hex', 'U_hexfmt'], level='proof',
+        units=['U_hex', 'U_hexfmt', 'U_hexidx'], level='proof',
         technique='contract-based deductive verification (Verus on extracted src/hex.rs) + complete loop-free Kani '
                   'harnesses for Index/IndexMut/eq/i64/f64 on the real file',
-        level_text='Unbounded proof over the abstract byte string for the inherent accessors (all lengths, both '
-                   'representations); complete (full-domain, loop-free) Kani proofs for the seven Index kinds, IndexMut, '
+        level_text='Unbounded proof over the abstract byte string for the inherent accessors AND for the seven Index impls within '
+                   'the range in which the byte slice accepts the index (U_hexidx: all lengths, both representations: no panic, '
+                   'the slice\'s answer; the precondition of the trait method is vstd\'s IndexSpecImpl::index_req, panic! is a call '
+                   'with `requires false`); complete (full-domain, loop-free) Kani proofs for the seven Index kinds, IndexMut, '
                    'equality and the i64/f64 conversions on the inline representation, with the slice-panic oracle itself '
-                   'validated against the real [u8] indexing; heap representation bounded (len <= 12) in the thorough tier.',
+                   'validated against the real [u8] indexing; for the heap representation the direction "panics when the slice would" '
+                   'and IndexMut stay bounded (len <= 12) in the thorough tier.',
         level_note='Trusted: Verus/Z3, Kani/CBMC/CaDiCaL, vstd specs of Vec/slice/array ops, assume_specification for '
                    '<[T]>::to_vec, alloc::fmt::format and Backtrace::capture stubbed on error paths; Hex invariant '
                    'inline-length <= 8 is a precondition. from_str(print(h)): proved over trusted contracts of hex::decode (a partial '
